@@ -118,31 +118,38 @@ func newLexer(env *interp.ExecEnv, name string, r io.RuneScanner) *lexer {
 		col:     1,
 	}
 	l.mark(0)
+	verifPoint(l, "L.new", 0)
 	go l.run()
 	return l
 }
 
 func (l *lexer) Lex(lval *yySymType) int {
+	verifPoint(l, "P.req", 0)
 	// request the next token
 	select {
 	case l.req <- struct{}{}:
 	case <-l.done:
 	}
+	verifPoint(l, "P.tok", 0)
 	switch tok := (<-l.token).(type) {
 	case token:
+		verifPoint(l, "P.recv", tok.typ)
 		l.last.Store(tok.Pos())
 		lval.token = tok
 		return tok.typ
 	case word:
+		verifPoint(l, "P.recv", tok.typ)
 		l.last.Store(tok.Pos())
 		lval.word = tok.val
 		return tok.typ
 	}
+	verifPoint(l, "P.recv", 0)
 	return 0
 }
 
 func (l *lexer) run() {
 	defer func() {
+		verifPoint(l, "L.exit", 0)
 		close(l.token)
 		close(l.done)
 
@@ -152,6 +159,7 @@ func (l *lexer) run() {
 		}
 	}()
 
+	verifPoint(l, "L.start", 0)
 	l.wait()
 	for action := l.lexPipeline; action != nil; {
 		action = action()
@@ -161,15 +169,18 @@ func (l *lexer) run() {
 // wait blocks until the parser requests the next token, so that the
 // lexer never runs ahead of the parser.
 func (l *lexer) wait() {
+	verifPoint(l, "L.wait", 0)
 	select {
 	case <-l.req:
 		select {
 		case <-l.cancel:
 		default:
+			verifPoint(l, "L.go", 0)
 			return
 		}
 	case <-l.cancel:
 	}
+	verifPoint(l, "L.bail", 0)
 	// bailout
 	panic(bailout)
 }
@@ -1537,9 +1548,12 @@ func (l *lexer) scanCmdSubst(r rune) bool {
 		}
 		ll.mark(off)
 		ll.last.Store(ll.pos)
+		verifPoint(ll, "L.new", 0)
 		go ll.run()
 		yyParse(ll)
+		verifPoint(ll, "P.parsed", 0)
 		<-ll.done
+		verifPoint(ll, "P.joined", 0)
 		if ll.err != nil {
 			l.mu.Lock()
 			l.err = ll.err
@@ -1684,9 +1698,11 @@ func (l *lexer) emit(typ int) {
 		}
 	}
 	l.word = nil
+	verifPoint(l, "L.emit", typ)
 	select {
 	case l.token <- tok:
 	case <-l.cancel:
+		verifPoint(l, "L.bail", 0)
 		// bailout
 		panic(bailout)
 	}
@@ -1713,6 +1729,7 @@ func (l *lexer) read() (rune, error) {
 		l.mark(0)
 	}
 
+	verifPoint(l, "L.read", 0)
 	r, _, err := l.r.ReadRune()
 	switch {
 	case err != nil:
@@ -1754,6 +1771,7 @@ func (l *lexer) Error(e string) {
 }
 
 func (l *lexer) error(pos ast.Pos, msg string) {
+	verifPoint(l, "E.error", 0)
 	l.mu.Lock()
 	defer l.mu.Unlock()
 
@@ -1813,9 +1831,11 @@ func (h *heredoc) exists() bool {
 
 func (h *heredoc) inc() {
 	atomic.AddUint32(&h.n, 1)
+	verifPoint(h, "H.inc", int(atomic.LoadUint32(&h.n)))
 }
 
 func (h *heredoc) push(r *ast.Redir) {
+	verifPoint(h, "H.push", 0)
 	h.mu.Lock()
 	h.stack = append(h.stack, r)
 	h.mu.Unlock()
@@ -1824,20 +1844,24 @@ func (h *heredoc) push(r *ast.Redir) {
 	case h.c <- struct{}{}:
 	default:
 	}
+	verifPoint(h, "H.pushed", 0)
 }
 
 func (h *heredoc) pop() *ast.Redir {
 	for atomic.LoadUint32(&h.n) != 0 {
+		verifPoint(h, "H.pop", 0)
 		h.mu.Lock()
 		if n := len(h.stack); n != 0 {
 			r := h.stack[0]
 			h.stack = h.stack[1:]
 			h.mu.Unlock()
 			atomic.AddUint32(&h.n, ^uint32(0))
+			verifPoint(h, "H.got", 0)
 			return r
 		}
 		h.mu.Unlock()
 		// wait
+		verifPoint(h, "H.wait", 0)
 		<-h.c
 	}
 	return nil
